@@ -56,6 +56,14 @@ def step (s : Unit) (j : Json) : Except String (Unit × Json × List Fired) := d
       let l ← jnatList out "res"
       if !(l.length = cnt ∧ distinct l ∧ l.all (· < ws.length)) then
         fired := [{ name := "sample_not_exact_distinct", detail := out }]
+      -- the sample is a function of the seed and the weights: the one the specification draws, and none at all where
+      -- the specification refuses (more members asked for than there are, or a total weight that does not fit 64 bits)
+      match r with
+      | some l' =>
+        if l != l' then
+          fired := fired ++ [{ name := "sample_is_not_the_seed_determined_one", detail := mkObj [("got", jl (l.map jn)), ("specified", jl (l'.map jn))] }]
+      | none =>
+        fired := fired ++ [{ name := "sample_drawn_where_the_sampler_must_refuse", detail := mkObj [("got", jl (l.map jn)), ("totalWeight", jn (ws.foldl (· + ·) 0))] }]
     pure (s, optListJson r, fired)
   | "maxWeight" =>
     let ws ← jnatList j "weights"
@@ -68,6 +76,14 @@ def step (s : Unit) (j : Json) : Except String (Unit × Json × List Fired) := d
       let l ← jnatList out "res"
       if !(l.length = cnt ∧ distinct l ∧ l.all (· < ws.length)) then
         fired := [{ name := "sample_not_exact_distinct", detail := out }]
+      -- the sample is a function of the seed and the weights: the one the specification draws, and none at all where
+      -- the specification refuses (more members asked for than there are, or a total weight that does not fit 64 bits)
+      match r with
+      | some l' =>
+        if l != l' then
+          fired := fired ++ [{ name := "sample_is_not_the_seed_determined_one", detail := mkObj [("got", jl (l.map jn)), ("specified", jl (l'.map jn))] }]
+      | none =>
+        fired := fired ++ [{ name := "sample_drawn_where_the_sampler_must_refuse", detail := mkObj [("got", jl (l.map jn)), ("totalWeight", jn (ws.foldl (· + ·) 0))] }]
     pure (s, optListJson r, fired)
   | "randomValidators" =>
     -- env: eligible validators [idx, power] in the staking iteration order
